@@ -49,10 +49,84 @@ func C04(ctx *core.Ctx) {
 		}
 	}
 
-	enc := r.Fn("C04.S4", "(*v0ProtocolMarshaler).marshalHeaders")
-	dec := r.Fn("C04.S4", "(*v0ProtocolMarshaler).readPairs")
-	calc := r.Fn("C04.S4", "(*v0ProtocolMarshaler).calculateHeaderSize")
-	gm := r.Fn("C04.S2", "getMarshaler")
+	// anchors by role (a rename of an unexported helper does not lose them):
+	//   enc  — the implementation of protocolMarshaler.marshalHeaders
+	//   dec  — the function both header readers of that marshaler share to decode the pairs from a byte slice
+	//   calc — the helper of enc that computes a size from the header map
+	//   gm   — the function that selects a protocolMarshaler from the version byte
+	var enc, dec, calc, gm *ssa.Function
+	if impls := r.Impl("protocolMarshaler", "marshalHeaders"); len(impls) == 1 {
+		enc = impls[0]
+	}
+	isHeaderMap := func(t types.Type) bool {
+		m, ok := t.Underlying().(*types.Map)
+		if !ok {
+			return false
+		}
+		k, ok1 := m.Key().Underlying().(*types.Basic)
+		v, ok2 := m.Elem().Underlying().(*types.Basic)
+		return ok1 && ok2 && k.Kind() == types.String && v.Kind() == types.String
+	}
+	{
+		count := map[*ssa.Function]int{}
+		readers := append(append([]*ssa.Function{}, r.Impl("protocolMarshaler", "unmarshalHeaders")...), r.Impl("protocolMarshaler", "unmarshalHeadersFromFrame")...)
+		for _, rd := range readers {
+			for _, g := range localCone(rd, 2) {
+				if g == rd || g.Signature.Results().Len() != 2 || !isHeaderMap(g.Signature.Results().At(0).Type()) {
+					continue
+				}
+				takesBytes := false
+				for i := 0; i < g.Signature.Params().Len(); i++ {
+					if sl, ok := g.Signature.Params().At(i).Type().Underlying().(*types.Slice); ok {
+						if b, ok := sl.Elem().Underlying().(*types.Basic); ok && b.Kind() == types.Byte {
+							takesBytes = true
+						}
+					}
+				}
+				isReader := false
+				for _, rd2 := range readers {
+					if rd2 == g {
+						isReader = true
+					}
+				}
+				if takesBytes && !isReader {
+					count[g]++
+				}
+			}
+		}
+		for g, n := range count {
+			if n == len(readers) && len(readers) >= 2 {
+				dec = g
+			}
+		}
+	}
+	if enc != nil {
+		for _, g := range localCone(enc, 1) {
+			if g == enc || g.Signature.Results().Len() != 1 {
+				continue
+			}
+			if b, ok := g.Signature.Results().At(0).Type().Underlying().(*types.Basic); !ok || b.Info()&types.IsInteger == 0 {
+				continue
+			}
+			for i := 0; i < g.Signature.Params().Len(); i++ {
+				if isHeaderMap(g.Signature.Params().At(i).Type()) {
+					calc = g
+				}
+			}
+		}
+	}
+	for _, fn := range r.Fns {
+		if fn.Signature.Recv() == nil && fn.Signature.Results().Len() >= 1 && ssax.TypeNamed(fn.Signature.Results().At(0).Type(), "", "protocolMarshaler") && fn.Signature.Params().Len() == 1 {
+			if b, ok := fn.Signature.Params().At(0).Type().Underlying().(*types.Basic); ok && b.Kind() == types.Byte {
+				gm = fn
+			}
+		}
+	}
+	for what, f := range map[string]*ssa.Function{"header encoder (protocolMarshaler.marshalHeaders)": enc, "shared pair reader of the header decoders": dec, "size helper of the encoder": calc, "marshaler selection by version byte": gm} {
+		if f == nil {
+			ctx.Unresolved("C04.S4", what, "not found by role")
+		}
+	}
 
 	// ---- S2 -------------------------------------------------------------------------
 	if enc != nil && gm != nil {
@@ -87,7 +161,7 @@ func C04(ctx *core.Ctx) {
 					ok = true
 				}
 			}
-			ctx.Check(ok, "C04.S3", ssax.Name(fn)+" › decodes through the single pair reader", fnPos(r, fn), "calls readPairs", "a header reader has its own pair decoding: stream and frame readers can disagree")
+			ctx.Check(ok, "C04.S3", ssax.Name(fn)+" › decodes through the single pair reader", fnPos(r, fn), "calls the shared pair reader", "a header reader has its own pair decoding: stream and frame readers can disagree")
 		}
 	}
 	if wh := r.Fn("C04.S3", "(*FProtocol).writeHeader"); wh != nil {
@@ -145,8 +219,16 @@ func C04(ctx *core.Ctx) {
 					continue
 				}
 				e := pr.EnvAt(c.Instr.(ssa.Instruction))
-				args := c.Args() // recv, buff, start, end
-				start, end := e.Term(args[2]), e.Term(args[3])
+				args := c.Args() // [recv,] buff, start, end
+				off := 0
+				if dec.Signature.Recv() != nil {
+					off = 1
+				}
+				if len(args) < off+3 {
+					ctx.Undecided("C04.S4", ssax.Name(fn)+" › call of the pair reader", r.IPos(c.Instr), "unexpected argument list")
+					continue
+				}
+				start, end := e.Term(args[off+1]), e.Term(args[off+2])
 				// size = the Uint32 read in this function
 				var size lin.Term
 				found := false
@@ -159,7 +241,7 @@ func C04(ctx *core.Ctx) {
 				okT := found && termEq(end.Sub(start), size)
 				ctx.Check(okT, "C04.S4", ssax.Name(fn)+" › pair reader is given [start, start+size)", r.IPos(c.Instr), "end − start = the size field just read", "the header block handed to the pair reader is not exactly the size that was read")
 				// frame reader: start = 4 (size prefix within frame[1:]); stream: start = 0
-				if _, isFrame := ssax.Strip(args[1]).(*ssa.Parameter); isFrame {
+				if _, isFrame := ssax.Strip(args[off]).(*ssa.Parameter); isFrame {
 					ctx.Check(termEq(start, lin.Const(4)), "C04.S4", ssax.Name(fn)+" › pairs start right after the 4-byte size prefix", r.IPos(c.Instr), "start = 4", "pairs are decoded from the wrong offset of the frame")
 				} else {
 					ctx.Check(termEq(start, lin.Const(0)), "C04.S4", ssax.Name(fn)+" › pairs start at the beginning of the block read", r.IPos(c.Instr), "start = 0", "pairs are decoded from the wrong offset of the block")
